@@ -41,6 +41,13 @@ def run(tier):
     for i in range(0, len(scen), chunk):
         p.push(scen[i:i + chunk], "s%d" % (i // chunk), ["--batch", "25"], timeout=3000)
     p.confirm(v, sig)
+    # every layer class once more: the 87 catalogue compositions, cloned between stack-dirtying calls - the clone must serialise
+    # like its source (a member the implicit copy constructor does not carry, e.g. padding of a header struct, shows here: F36)
+    cat, _ = vlib.tlc_generate("wire/CatGen", "CatGen.cfg" if quick else "CatGen_t.cfg", timeout=900)
+    cat = sorted({vlib.canon_hash(s): s for s in cat}.values(), key=lambda s: (s["id"], s["rep"]))
+    p3 = vlib.Pipeline(PROP, "wire_cat", "wire/CatTrace", "CatTrace_C12.cfg")
+    p3.push(cat, "cat", timeout=3000)
+    p3.confirm(v, lambda scen, kind, detail, rec=None: {"family": "wire_cat", "kind": kind, "id": scen.get("id")})
     rc = v.finish()
     classes = set()
     for rec in vlib.read_trace_index(p.dir + "/pdu_forest-s0.trace.ndjson").values():
@@ -49,7 +56,8 @@ def run(tier):
     cov = {
         "states": sum(r.distinct for r in mc) + p.stats["tlc_states"],
         "transitions": sum(r.generated for r in mc) + p.stats["tlc_generated"],
-        "traces_validated_against_impl": p.stats["executions"],
+        "traces_validated_against_impl": p.stats["executions"] + p3.stats["executions"],
+        "catalogue_clone_checks": p3.stats["executions"],
         "samples": [bfs[len(bfs) // 2], sim[0]] + p.samples[:2],
         "evaluations": len(scen), "distinct_nontrivial": len(distinct),
         "rule": "scenario = program over 19 operations (new, clone, copy/move construction and assignment, / and /=, "
@@ -74,4 +82,8 @@ def run(tier):
 
 
 def replay(path):
+    import json
+    with open(path) as f:
+        if json.load(f)["replay"]["harness"] == "wire_cat":
+            return vlib.Pipeline(PROP, "wire_cat", "wire/CatTrace", "CatTrace_C12.cfg").replay_file(path)
     return vlib.Pipeline(PROP, "pdu_forest", "pdu/PDUForestTrace").replay_file(path)
